@@ -38,7 +38,9 @@ ComplCase(ev, root) == /\ ev.ast.op \in {"==", "!="}
 \* pointers; the abstract element is the same object / list).  ALLOW: the statement and the operator documentation speak of
 \* JSON-like data; for reflected containers only totality (no panic) and the comparison operators on plain operands are
 \* demanded (containers are simply unequal, never ordered); length / empty / in / has ... on them are not judged.
-Flavoured(ev) == "flv" \in DOMAIN ev
+\* (flv "D:..." = the containers BELOW the element in other representations, for operand paths of depth >= 2: what the path
+\* denotes is the same and the operands at its end are the same scalars, so those events are judged like the plain ones)
+Flavoured(ev) == "flv" \in DOMAIN ev /\ ev.flv \in {"A", "B", "C"}
 JudgedFlavoured(ev) == ev.ast.op \in {"==", "!=", "<", ">", "<=", ">="} /\ Leaf(ev.ast.l) /\ Leaf(ev.ast.r)
 KindOfBad(ev, g) ==
     LET root == RootFor(ev, g.rt)
